@@ -29,6 +29,7 @@ type Interp struct {
 	mergeCache            map[*ssa.Function]*mergeInfo
 	NoMerge               bool
 	NoSlice               bool
+	fnNames               map[string]bool
 }
 
 type deferred struct {
